@@ -187,7 +187,15 @@ fn main() {
                     cases.push((1_000_000 + k, qt::gen_qt_case(seed, k)));
                 }
             }
-            let recs = par_map(&cases, threads, |(n, c)| qt::qt_record(c, *n));
+            let mut recs = par_map(&cases, threads, |(n, c)| qt::qt_record(c, *n));
+            if let Some(k) = arg(&args, "--opts") {
+                // additionally push the first k sheets through the real binary as .xlsx with option combinations
+                let k: usize = k.parse().unwrap();
+                let scratch = std::path::PathBuf::from(arg(&args, "--scratch").expect("--scratch"));
+                std::fs::create_dir_all(&scratch).unwrap();
+                let sub: Vec<(u64, serde_json::Value)> = cases.iter().take(k).cloned().collect();
+                recs.extend(par_map(&sub, threads, |(n, c)| qt::qt_opts_record(c, *n, &scratch)));
+            }
             let mut w = BufWriter::new(std::fs::File::create(out).unwrap());
             for r in &recs {
                 writeln!(w, "{}", serde_json::to_string(r).unwrap()).unwrap();
